@@ -448,9 +448,7 @@ Lemma html_rawtext_proof : forall c d l ty tk l', cfg_ok c -> html_inv d l -> in
     (lpos (lz l) < e ->
        ty = TextT /\ tk = Some (mkSl (lpos (lz l)) (e - lpos (lz l))) /\ ltext l' = tk /\
        rawtag l' = 0 /\ intag l' = false /\ lpos (lz l') = e) /\
-    (e = len d \/ (rawtag l <> html_hash_Plaintext /\
-                   (end_tag_at (rawtag l) (d ++ [0]) e \/
-                    (rawtag l = html_hash_Script /\ end_tag_weak (rawtag l) (d ++ [0]) e)))) /\
+    (e = len d \/ (rawtag l <> html_hash_Plaintext /\ end_tag_at (rawtag l) (d ++ [0]) e)) /\
     (has_delims c = false -> rawtag l <> html_hash_Script -> rawtag l <> html_hash_Plaintext ->
        forall p, lpos (lz l) <= p < e -> ~ end_tag_at (rawtag l) (d ++ [0]) p).
 Proof.
@@ -480,10 +478,9 @@ Proof.
       injection Hn as <- <- <-. cbn [ltext rawtag intag lz skip lpos]. rewrite A2, Hcl. tauto.
     + assert (Hblen : len (lbuf (lz l)) = len (d ++ [0])).
       { pose proof (lx_wf_len _ Hw) as [Hbl _]. rewrite len_app. change (len [0]) with 1. lia. }
-      destruct Hend as [Hend|[Hend|[Hsc Hend]]].
+      destruct Hend as [Hend|Hend].
       * left. apply at_end_true in Hend; [|eauto using adv_wf]. rewrite (adv_len _ _ Ha), Hlen in Hend. exact Hend.
-      * right. split; [b2p; assumption|]. left. eapply (end_tag_at_ext true _ _ _ (lpos (lz l))); eauto. lia.
-      * right. split; [b2p; assumption|]. right. split; [exact Hsc|]. eapply (end_tag_at_ext false _ _ _ (lpos (lz l))); eauto. lia.
+      * right. split; [b2p; assumption|]. eapply (end_tag_at_ext true _ _ _ (lpos (lz l))); eauto. lia.
     + intros Hd Hs _ p Hp Hm. apply (Hnm Hd Hs p Hp).
       assert (Hblen : len (d ++ [0]) = len (lbuf (lz l))).
       { pose proof (lx_wf_len _ Hw) as [Hbl _]. rewrite len_app. change (len [0]) with 1. lia. }
